@@ -8,7 +8,8 @@ Filter, Assign, Binop subclasses, Invert, literals):
 * `nf_sound` — the symbolic normal form denotes what the expression denotes:
   `nf e = some n → den e = some (denNF n)` for every well-formed source frame;
 * `equiv_sound` / `checkStep_sound` — two expressions whose normal forms have the same output
-  expressions and the same SET of filter conjuncts compute the same pandas object
+  expressions and equivalent filters (the same SET of conjuncts, or the same truth table over their atoms: `p | p = p`,
+  `(p & q) | (p & r) = p & (q | r)`, …) compute the same pandas object
   (this covers, uniformly, projection pushdown through filter/assign/elemwise, projection∘projection
   collapse, filter pushdown and filter∘filter squashing into `p & q`, the assign-shadowing rule, and
   dropping unused assigns: every such rewrite leaves the normal form unchanged);
@@ -495,10 +496,10 @@ theorem equiv_sound (s : Src) (a b : NF) (h : a.equiv b = true) : denNF s a = de
   cases a <;> cases b <;> simp only [NF.equiv, Bool.and_eq_true, beq_iff_eq] at h <;> try (cases h; done)
   · obtain ⟨hc, hs⟩ := h
     subst hc
-    simp only [denNF, keep_sameSet s _ _ hs]
+    simp only [denNF, keep_filtEquiv s _ _ hs]
   · obtain ⟨hc, hs⟩ := h
     subst hc
-    simp only [denNF, keep_sameSet s _ _ hs]
+    simp only [denNF, keep_filtEquiv s _ _ hs]
   · subst h; rfl
 
 /-- **rule soundness, uniformly**: a rewrite step accepted by the checker preserves the result -/
@@ -545,6 +546,13 @@ example : checkStep ["a", "b"]
     (.filter (.filter .src (.bin .gt (.col .src "a") (.lit 1)))
        (.bin .lt (.col (.filter .src (.bin .gt (.col .src "a") (.lit 1))) "b") (.lit 5)))
     (.filter .src (.bin .and (.bin .gt (.col .src "a") (.lit 1)) (.bin .lt (.col .src "b") (.lit 5)))) = true := by decide
+
+/-- the OR-rewrite `x[(p & q) | (p & r)] ⟶ x[p & (q | r)]` and `x[p | p] ⟶ x[p]` (truth-table equivalence) -/
+example : checkStep ["a", "b"]
+    (.filter .src (.bin .or (.bin .and (.bin .gt (.col .src "a") (.lit 1)) (.bin .lt (.col .src "b") (.lit 5)))
+                            (.bin .and (.bin .gt (.col .src "a") (.lit 1)) (.bin .eq (.col .src "b") (.lit 7)))))
+    (.filter .src (.bin .and (.bin .gt (.col .src "a") (.lit 1))
+                             (.bin .or (.bin .lt (.col .src "b") (.lit 5)) (.bin .eq (.col .src "b") (.lit 7))))) = true := by decide
 
 /-- dropping an assign that the final projection does not use; projection ∘ projection -/
 example : checkStep ["a", "b"]
